@@ -442,6 +442,20 @@ class Driver(object):
                     f.step(t1, t2)
                 return
             self.do({"op": "rephase" if p.rephase else "restart"})
+            if p.name in ("fanout", "clock", "usage", "mixed", "replay") and b % 2:
+                # clients that bind right after a restart, sit through a sweep and only then open
+                app = self.app_of(a)
+                c1 = self.new_conn(app, self.side_of(c))
+                c2 = self.new_conn(app, self.side_of(c + 1)) if c % 3 else None
+                self.do({"op": "advance", "dt": [301.0, 600.5, 300.0][c % 3]})
+                mb = self.hot_mb.get(app, self.mailbox_literal(app, c))
+                for cc in (c1, c2):
+                    if cc is not None and self.tr.conns.get(cc) is not None and self.tr.conns[cc].alive:
+                        self.do({"op": "send", "c": cc, "msg": {"type": "open", "mailbox": mb}})
+                last = c2 if c2 is not None else c1
+                if self.tr.conns.get(last) is not None and self.tr.conns[last].holds:
+                    self.do({"op": "send", "c": last, "msg": {"type": "add", "phase": t1, "body": t2}})
+                return
             if p.weights.get("list", 0) >= 4 and b % 2:
                 # the first thing a client asks a freshly started server
                 ncid = self.new_conn(self.app_of(a), self.side_of(c))
